@@ -962,6 +962,7 @@ class Mutations:
         # Adjust indices to add after deletion
         to_remove = np.array(to_remove)
         to_add = np.array(to_add)
+        new_positions = to_add.copy()  # where the new coordinates end up
         to_add -= np.sum(to_add[:, np.newaxis] > to_remove, axis=1)
         to_add -= np.arange(len(to_add))
 
@@ -976,7 +977,7 @@ class Mutations:
             new_sigma_inv = np.insert(
                 np.insert(new_sigma_inv, to_add, 0, 0), to_add, 0, 1
             )
-            for i in to_add:
+            for i in new_positions:
                 new_sigma_inv[i, i] = individual.lamb
 
         individual.exp_layer = exp_layer
